@@ -699,6 +699,9 @@ func fzApplyOp(h []byte, o fzOp) []byte {
 		// the array's own elements cycled up to N items (service info lists: more entries than any internal queue holds)
 		want, _ := strconv.Atoi(strings.TrimPrefix(o.op, "repeat:"))
 		orig := n.kids
+		if len(orig) == 0 { // the fresh instance of the message has another shape here
+			break
+		}
 		size := len(root.bytes())
 		for k := 0; len(n.kids) < want && size < 60000; k++ {
 			kid := orig[k%len(orig)]
